@@ -8,6 +8,7 @@ Require Import Amoco.C14.Model Amoco.C16.Layout Amoco.C16.Proofs Amoco.C16.Field
 Require Amoco.C16.Sleb.
 Require Amoco.C16.Uleb.
 Require Amoco.C16.UlebAgree.
+Require Amoco.C16.LebInj.
 Open Scope Z_scope.
 
 (* Natural alignment: every field of a non-packed structure sits at the least offset that is a multiple of its
@@ -99,6 +100,16 @@ Theorem C16_uleb128_models_agree : (forall fuel n, write_uleb fuel n = Uleb.uleb
   (forall bs s a c, read_uleb s a (Z.of_nat c) bs = (fst (Uleb.uleb_dec bs s a c), Z.of_nat (snd (Uleb.uleb_dec bs s a c)))).
 Proof. split; [exact UlebAgree.write_uleb_is_uleb_enc|exact UlebAgree.read_uleb_is_uleb_dec]. Qed.
 Print Assumptions C16_uleb128_models_agree.
+(* distinct values are written as distinct bytes (signed and unsigned), and no unsigned encoding is a proper prefix of another *)
+Theorem C16_leb128_injective :
+  (forall f v w, Uleb.ufits f v -> Uleb.ufits f w -> Uleb.uleb_enc (S f) v = Uleb.uleb_enc (S f) w -> v = w) /\
+  (forall f v w, Sleb.fits f v -> Sleb.fits f w -> Sleb.sleb_enc (S f) v = Sleb.sleb_enc (S f) w -> v = w).
+Proof. split; [exact LebInj.uleb_injective|exact LebInj.sleb_injective]. Qed.
+Print Assumptions C16_leb128_injective.
+Theorem C16_uleb128_prefix_free : forall f v w t, Uleb.ufits f v -> Uleb.ufits f w ->
+  Uleb.uleb_enc (S f) w = Uleb.uleb_enc (S f) v ++ t -> v = w /\ t = [].
+Proof. exact LebInj.uleb_prefix_free. Qed.
+Print Assumptions C16_uleb128_prefix_free.
 Example C16_uleb128_nonvacuous :
   Uleb.uleb_enc 40 0 = [0] /\ Uleb.uleb_enc 40 127 = [127] /\ Uleb.uleb_enc 40 128 = [128; 1] /\
   Uleb.uleb_enc 40 624485 = [229; 142; 38] /\ Uleb.uleb_dec [229; 142; 38; 7] 0 0 0 = (624485, 3%nat) /\ Uleb.ufits 2 624485.
